@@ -94,7 +94,9 @@ def run(ctx):
         for k in range(1, 4):
             rows += run_modes(binp, ctx.seed + k, "thorough")
     failures, mismatches = [], []
-    for r in rows:
+    for r in [x for x in rows if oracle(x)][:4]:
+        if len(failures) >= 2:
+            break
         why = oracle(r)
         if why:
             # a timing-dependent miss (barrier not reached under load) must show again
